@@ -416,11 +416,17 @@ pub fn run_history(ops: &[Op], cnt: &mut W9Count) -> Vec<Violation> {
                     expect_panic = true;
                     cnt.fault_drop += 1;
                 }
-                // the old value's Drop panics after the new one is in place (or the old one
-                // stays): the reference allows old or new, never a third
+                // the old value's Drop panics: the new value is in place by then - or, for an
+                // implementation that takes the old one out first, the slot is empty after the
+                // unwind (both values dropped once; the final drop accounting sees to that).
+                // Nothing else; and without the fault only "new value in place".
                 let mut a = m.clone();
                 a.insert((t, 0), id);
-                alt = Some(m.clone());
+                if expect_panic {
+                    let mut e = m.clone();
+                    e.remove(&(t, 0));
+                    alt = Some(e);
+                }
                 m = a;
                 w.insert(v);
             }),
